@@ -100,7 +100,11 @@ impl IDateTime {
             + (self.time.to_second().second as i64);
         let mut nanosecond = self.time.subsec_nanosecond;
         second -= offset.second as i64;
-        if epoch_day < 0 && nanosecond != 0 {
+        // A timestamp before the Unix epoch is represented with a
+        // non-positive second and a non-positive nanosecond. Whether we are
+        // before the epoch is determined by the resulting second (i.e., after
+        // applying the offset), and not by the civil date.
+        if second < 0 && nanosecond != 0 {
             second += 1;
             nanosecond -= 1_000_000_000;
         }
